@@ -100,40 +100,7 @@ func c05Boot(t *testing.T, tx bool, sealable bool, retryBase time.Duration) *c05
 		e.addNS(p, false, nil)
 	}
 	if sealable {
-		var keys []string
-		var resp *logical.Response
-		var err error
-		for _, cfg := range []string{"seal \"shamir\" {\n shares = 1\n threshold = 1\n}", "seal \"shamir\" {\n shares = 3\n threshold = 2\n}"} {
-			resp, err = v.Do(vReq{Op: logical.UpdateOperation, Path: "sys/namespaces/sns", Token: v.Root, Data: map[string]any{"seal": cfg}})
-			if vOK(resp, err) && resp != nil {
-				break
-			}
-		}
-		if !vOK(resp, err) || resp == nil {
-			t.Fatalf("verif: cannot create sealable namespace: %s", vErrStr(resp, err))
-		}
-		switch ks := resp.Data["key_shares"].(type) {
-		case []string:
-			keys = ks
-		case []any:
-			for _, k := range ks {
-				keys = append(keys, fmt.Sprint(k))
-			}
-		}
-		if len(keys) == 0 {
-			t.Fatalf("verif: sealable namespace returned no key shares: %v", resp.Data)
-		}
-		n := &c05NS{Path: "sns/", Sealable: true, Keys: keys, Sealed: true}
-		e.nss = append(e.nss, n)
-		if err := e.unsealNS(v, n); err != nil {
-			t.Fatalf("verif: cannot unseal namespace sns: %v", err)
-		}
-		ns, err := v.Core.namespaceStore.GetNamespaceByPath(namespace.RootContext(context.Background()), "sns/")
-		if err != nil || ns == nil {
-			t.Fatalf("verif: namespace sns: %v", err)
-		}
-		n.NS = ns.Clone(false)
-		n.Prefix = NamespaceStoragePathPrefix(ns)
+		e.addSealable("sns")
 	}
 	for _, n := range e.nss {
 		v.Policy("c05", c05Policy, n.Path)
@@ -141,6 +108,46 @@ func c05Boot(t *testing.T, tx bool, sealable bool, retryBase time.Duration) *c05
 		v.EnableAuth("c05auth", "verifrec", n.Path)
 	}
 	return e
+}
+
+// addSealable creates a namespace with its own shamir seal, unseals it and registers it.
+func (e *c05Env) addSealable(name string) *c05NS {
+	t, v := e.t, e.v
+	var keys []string
+	var resp *logical.Response
+	var err error
+	for _, cfg := range []string{"seal \"shamir\" {\n shares = 1\n threshold = 1\n}", "seal \"shamir\" {\n shares = 3\n threshold = 2\n}"} {
+		resp, err = v.Do(vReq{Op: logical.UpdateOperation, Path: "sys/namespaces/" + name, Token: v.Root, Data: map[string]any{"seal": cfg}})
+		if vOK(resp, err) && resp != nil {
+			break
+		}
+	}
+	if !vOK(resp, err) || resp == nil {
+		t.Fatalf("verif: cannot create sealable namespace: %s", vErrStr(resp, err))
+	}
+	switch ks := resp.Data["key_shares"].(type) {
+	case []string:
+		keys = ks
+	case []any:
+		for _, k := range ks {
+			keys = append(keys, fmt.Sprint(k))
+		}
+	}
+	if len(keys) == 0 {
+		t.Fatalf("verif: sealable namespace returned no key shares: %v", resp.Data)
+	}
+	n := &c05NS{Path: name + "/", Sealable: true, Keys: keys, Sealed: true}
+	e.nss = append(e.nss, n)
+	if err := e.unsealNS(v, n); err != nil {
+		t.Fatalf("verif: cannot unseal namespace %s: %v", name, err)
+	}
+	ns, err := v.Core.namespaceStore.GetNamespaceByPath(namespace.RootContext(context.Background()), name+"/")
+	if err != nil || ns == nil {
+		t.Fatalf("verif: namespace %s: %v", name, err)
+	}
+	n.NS = ns.Clone(false)
+	n.Prefix = NamespaceStoragePathPrefix(ns)
+	return n
 }
 
 func (e *c05Env) addNS(p string, sealable bool, keys []string) {
